@@ -25,6 +25,8 @@ Definition portable_func (f : func) : bool :=
 
 Section Port.
 Variable Q : Type.
+(* sub-queries for which the two backends are known to write the same script *)
+Variable pq : Q -> bool.
 
 Fixpoint portable (e : expr Q) : bool :=
   match e with
@@ -33,7 +35,7 @@ Fixpoint portable (e : expr Q) : bool :=
   | ENot x => portable x
   | EFunc f args => portable_func f && forallb (fun a : bool * expr Q => portable (snd a)) args
   | EBinary l o r => portable_op o && portable l && portable r
-  | ESubQuery sop _ => match sop with None | Some SqExists => true | _ => false end
+  | ESubQuery sop q => match sop with None | Some SqExists => pq q | _ => false end
   | ECustomWith _ _ | EAsEnum _ _ => false
   | ECase whens els =>
       forallb (fun w : expr Q * expr Q => portable (fst w) && portable (snd w)) whens &&
@@ -41,7 +43,7 @@ Fixpoint portable (e : expr Q) : bool :=
   end.
 
 Variables rq1 rq2 : Q -> script.
-Hypothesis rq_agree : forall q, rq1 q = rq2 q.
+Hypothesis rq_agree : forall q, pq q = true -> rq1 q = rq2 q.
 Variable is_alpha : N -> bool.
 Variables b1 b2 : backend.
 Variables T1 T2 : etables.
@@ -184,7 +186,7 @@ Proof.
     cbn [portable] in Hp. apply andb_prop in Hp as [Hp Hr]. apply andb_prop in Hp as [Ho Hl].
     cbn [operands_agree]. split; [apply (IHl Hl)|apply (IHr Hr)].
   - (* sub-query *)
-    cbn [rexpr]. rewrite rq_agree. destruct sop as [[| | |]|]; try discriminate Hp; [|reflexivity].
+    cbn [rexpr]. cbn [portable] in Hp. destruct sop as [[| | |]|]; try discriminate Hp; rewrite (rq_agree q Hp); [|reflexivity].
     cbn [sqop_key]. now rewrite exists_agree.
   - (* case *)
     cbn [portable] in Hp. apply andb_prop in Hp as [Hw He]. cbn [rexpr]. f_equal. f_equal.
